@@ -336,7 +336,7 @@ def run(ck):
         sim.settle()
         return sim, hub, p1, p2, died
 
-    errs = [101, 1, 90] if ck.thorough() else [101, 1]
+    errs = [101, 1, 90, 'gaierror', 'no-errno', 'timeout', 100000] if ck.thorough() else [101, 1, 'gaierror', 'no-errno', 100000]
     n = 0
     for name in scripts:
         sim, hub, p1, p2, died = play(name)
@@ -728,7 +728,7 @@ def run(ck):
                     pass
     # ---- transmissions towards ONE peer fail persistently (its link is down, a queue that never drains): every kind of errno, while that peer is in the
     # middle of a handshake / an exchange. The loop must keep coming back to select() and serve the other peer (replies and timers)
-    for ei, err in enumerate([105, 11, 101, 113, 1, 90, 12]):            # ENOBUFS EAGAIN ENETUNREACH EHOSTUNREACH EPERM EMSGSIZE ENOMEM
+    for ei, err in enumerate([105, 11, 101, 113, 1, 90, 12, 'gaierror', 'no-errno']):            # ENOBUFS EAGAIN ENETUNREACH EHOSTUNREACH EPERM EMSGSIZE ENOMEM, then errors without a usual errno
         for when in ('from-the-start', 'once-established'):
             n += 1
             if not ck.mine(n):
